@@ -144,7 +144,7 @@ def build_http_config(rng, keyname="rsa1024_a", hostile=False, extras=True, allo
     for _ in range(ndom):
         # RFC 3986 path characters beyond letters/digits appear in real profiles (e.g. "/jquery-3.3.1.min.js", "/search;type=web")
         seg_alpha = TOKEN if rng.random() < 0.7 else TOKEN + b";:@=$!*.~"
-        uris.append("/" + "/".join(_text(rng, rng.randrange(1, 9), seg_alpha).decode() for _ in range(rng.randrange(1, 3))) + rng.choice(["", ".js", ".gif", ".php", ";v=1"]))
+        uris.append("/" + "/".join(_text(rng, rng.randrange(1, 9), seg_alpha).decode() for _ in range(rng.randrange(1, 3))) + rng.choice(["", ".js", ".gif", ".php", ";v=1", "/"]))
     # a URI ending in an empty ';' parameter is normalised away by urljoin in the client: not a configuration we generate
     uris = [u + "1" if u.endswith(";") else u for u in uris]
     # '.' and '..' path segments are removed by URL normalisation in the client (urljoin/httpx)
@@ -152,7 +152,7 @@ def build_http_config(rng, keyname="rsa1024_a", hostile=False, extras=True, allo
     if rng.random() < 0.3:
         uris = [uris[0]] * ndom
     m["uris"] = uris
-    m["submit_uri"] = "/" + _text(rng, rng.randrange(2, 10)).decode() + rng.choice([".php", "", "/submit", ";jsessionid=1", ".php;x"])
+    m["submit_uri"] = "/" + _text(rng, rng.randrange(2, 10)).decode() + rng.choice([".php", "", "/submit", ";jsessionid=1", ".php;x", "/"])
     while any(m["submit_uri"].startswith(u) or u.startswith(m["submit_uri"]) for u in uris):
         m["submit_uri"] = "/" + _text(rng, rng.randrange(4, 12)).decode() + "S"
     ua = "Mozilla/5.0 (Windows NT 10.0; Win64; x64) " + _text(rng, rng.randrange(0, 60), b"abcdefghijklmnopqrstuvwxyz /.;()0123456789").decode()
